@@ -10,6 +10,11 @@ AREAS = {
               "default_case": "(MPlain [] (mkKV [] [] 0 0) OPanic OPanic)"},
     "strategy": {"branches": [1, 2, 4, 6, 7, 11, 12, 13, 14, 16, 17, 18, 19, 22, 27], "shard": 150,
                  "explain": "sexplain", "default_case": "(mkS SUpdate 0 [] [] DKeep SPanic)"},
+    "shadow": {"branches": [1, 2, 11, 21, 22, 31, 41, 42, 51], "shard": 100,
+               "explain": "sh_model", "default_case": "(ShProjectDup [] [] SPanic)"},
+    "dupsort": {"branches": [1, 2, 3, 4, 10, 11, 12, 13, 20, 21], "shard": 150,
+                "explain": "(fun c => match c with DEnc e _ => kobs_of (enc_one e) | DDec e _ => kobs_of (dec_one e) | DEncList l _ => match hack_encode l with Ok (e :: _) => KOk e | _ => KErr 4 end end)",
+                "default_case": "(DEncList [] None)"},
 }
 
 PROPS = {
@@ -26,6 +31,15 @@ PROPS = {
                             "integer-key DBIs hold keys of one width (2, 4 or 8 bytes), as LMDB requires",
                             "the legacy strategies Put, Append, IterPut, Pick are out of scope (nothing calls them)"],
             "trusted_base": [LMDB_TRUST, "modelled: lmdbenv/strategy update.go, iterupdate.go, utils.go (iterBoth, setNewVal, cmpIntegerLittleEndian, bytesToInt), emptyput.go + doPut"]},
+    "C11": {"seed": 11, "areas": [("shadow", 500), ("strategy", 300)], "thorough_mult": 8,
+            "assumptions": ["steady state: stored shadow timestamps are below the time of detection (monotone clock, the documented operating assumption)",
+                            "one DBI at a time; composition over DBIs and with the merge step is in the Instance model (C01/C03)",
+                            "known finding F6: live entries with an EMPTY application value are not projected (C11_empty_value_refuted)"],
+            "trusted_base": [LMDB_TRUST, "modelled: syncer/shadow.go mainToShadow/shadowToMain, readDBI (syncer/utils.go), strategy.IterUpdate, NativeIterator/PlainIterator"]},
+    "C20": {"seed": 20, "areas": [("dupsort", 600), ("shadow", 300)], "thorough_mult": 8,
+            "assumptions": ["DUPSORT values are at most 511 bytes (LMDB limit)",
+                            "the mirror-cycle clause is checked on the real code by the harness oracle and on the model by the correspondence (ShCaptureDup/ShProjectDup); its Coq theorem is not finished (see DESIGN.md)"],
+            "trusted_base": [LMDB_TRUST, "modelled: syncer/dupsorthack.go, the DUPSORT paths of syncer/shadow.go, strategy.EmptyPut"]},
 }
 
 # fragments: bin/props.d/*.py may define AREAS_ADD / PROPS_ADD
